@@ -41,6 +41,7 @@ func NewChooser(seed uint64, prefix []int, replay bool) *Chooser {
 // Pick returns an index in [0,k). In replay mode the recorded value is used (mod k; 0 once the
 // record is exhausted); otherwise f decides (it may use c.Rng()). The decision is recorded.
 func (c *Chooser) Pick(k int, f func() int) int {
+	Tick()
 	v := 0
 	if k > 1 {
 		if c.replay {
@@ -63,6 +64,13 @@ func (c *Chooser) Pick(k int, f func() int) int {
 }
 
 func (c *Chooser) Rng() *rand.Rand { return c.rng }
+
+// progress counts simulator events (decisions, steps, entropy reads, log lines). It is read only
+// by the worker's real-time stall watchdog (worker.go) and never influences a run.
+var progress atomic.Uint64
+
+// Tick records that the simulator is making progress.
+func Tick() { progress.Add(1) }
 
 // ---------------------------------------------------------------------------------------------
 // DRBG: SHA-256 in counter mode.
@@ -97,6 +105,7 @@ func NewDRBG(parts ...string) *DRBG {
 }
 
 func (d *DRBG) Read(p []byte) (int, error) {
+	Tick()
 	d.Reads++
 	if d.FailAt > 0 && d.Reads == d.FailAt {
 		return 0, d.Err
@@ -242,6 +251,7 @@ func (st *Stepper) NewNodeRand(node, kind string) *NodeRand {
 func (r *NodeRand) Main() *DRBG { return r.main }
 
 func (r *NodeRand) Read(p []byte) (int, error) {
+	Tick()
 	st := r.st
 	if st.RaceMode {
 		// C09(b): real goroutines under the race detector; which goroutine gets which bytes is left
@@ -267,6 +277,7 @@ func (r *NodeRand) Read(p []byte) (int, error) {
 func (st *Stepper) Run(f func()) StepOutcome {
 	var out StepOutcome
 	done := make(chan struct{})
+	Tick()
 	st.stepNo++
 	st.subs = map[string]*DRBG{}
 	st.labels = map[int64]int{}
@@ -304,6 +315,7 @@ func (st *Stepper) Run(f func()) StepOutcome {
 
 // BeginStep resets the per-step substream labelling (used by controllers that do not go through Run).
 func (st *Stepper) BeginStep() {
+	Tick()
 	st.stepNo++
 	st.subs = map[string]*DRBG{}
 	st.labels = map[int64]int{}
@@ -490,6 +502,7 @@ func (w *World) AddNode(name, committee string, pid *tss.PartyID) *Node {
 }
 
 func (w *World) Logf(format string, a ...interface{}) {
+	Tick()
 	w.Log = append(w.Log, fmt.Sprintf(format, a...))
 }
 
